@@ -435,12 +435,45 @@ def emission_wrappers(P):
     return w
 
 
+def closure_captures(P, parent, closure_name):
+    tr = tracer(P, parent)
+    for b, i, s in parent.assigns():
+        r = s["r"]
+        if r["k"] == "aggregate" and r["ak"] == "closure" and r.get("closure") == closure_name:
+            return [tr.operand(o, (b, i)) for o in r["ops"]]
+    return None
+
+
+def _closure_wrappers(P, w):
+    """a closure that sends (a clone of) a captured value which is a parameter of its parent"""
+    for f in P.lib_fns():
+        if not f.is_closure:
+            continue
+        parent = P.fns.get(f.name.rsplit("::{closure", 1)[0])
+        if parent is None or parent.is_closure:
+            continue
+        for em in direct_sends(P, f):
+            for a in strip(em.ev):
+                caps = [x for x in walk(a) if x[0] == "field" and isinstance(x[2], int) and ("param", 1) in strip(x[1])]
+                if not caps:
+                    continue
+                cap = closure_captures(P, parent, f.name)
+                if not cap:
+                    continue
+                for c in caps:
+                    if c[2] < len(cap):
+                        for y in strip(cap[c[2]]):
+                            if y[0] == "param":
+                                w[parent.name] = (y[1], em.chan)
+
+
 def emissions(P, _cache={}):
     """all event emission sites: direct sends and calls of forwarding wrappers"""
     key = id(P)
     if key in _cache:
         return _cache[key]
     wr = emission_wrappers(P)
+    _closure_wrappers(P, wr)
     out = []
     for f in P.lib_fns():
         out.extend(direct_sends(P, f))
